@@ -382,7 +382,7 @@ def inventory(ctx):
     return inv
 
 
-def check_inventory(ctx, executed):
+def check_inventory(ctx, executed, have_cases=True):
     """fail closed: declaration not in COVER, COVER entry without declaration, covered (declaration x instantiation) without an executed case"""
     inv = inventory(ctx)
     if inv is None:
@@ -400,10 +400,12 @@ def check_inventory(ctx, executed):
             continue
         per = {INSTS[c][0]: sum(executed.get((op, c), 0) for op in e["ops"]) for c in e["insts"]}
         report[label] = {"theorems": e["thm"], "ops": [OPN[o] for o in e["ops"]], "executed": per}
-        if key in inv:
+        if key in inv and have_cases:
             for nm, cnt in per.items():
                 if cnt == 0:
                     ctx.broken.append("inventory: %s is covered by no executed case for %s in this run" % (label, nm))
+    if not have_cases:
+        ctx.broken.append("inventory: no exact case was executed in this run (no harness build or no cases): execution counts are all zero")
     msgs = [b for b in ctx.broken if b.startswith("inventory:")]
     if msgs:
         ctx.violation("inventory of range.h/box.h (and of what box code calls) no longer matches the coverage table: " + "; ".join(msgs[:4]),
@@ -728,45 +730,86 @@ def regen(ctx):
     if not os.path.exists(tgt) or open(tgt).read() != txt:
         shutil.copy(new, tgt)
         ctx.log("gen/GenBox.v changed -> regenerated, theorems are re-checked against the new text")
+    lost = [l[15:].split(":")[0] for l in txt.splitlines() if l.startswith("(* UNSUPPORTED") and "conv_p" not in l and "mk__p" not in l and "less_op_call__p_p" not in l]
+    if lost:
+        ctx.broken.append("cxx2coq: %d function(s) of the tree are outside the translated subset (no model, no theorem for them): %s" % (len(lost), ", ".join(lost[:6])))
     ctx.cov["generated_definitions"] = txt.count("\nDefinition ")
     ctx.cov["generated_unsupported"] = [l[3:80] for l in txt.splitlines() if l.startswith("(* UNSUPPORTED") and "conv_p" not in l and "mk__p" not in l]
 
 
+BUDGET_S = 235      # wall-clock budget of the quick tier: the searches on the real code shrink their timeouts / sample counts to fit
+
+
+def first_error(text):
+    for ln in (text or "").splitlines():
+        if "rror" in ln: return ln.strip()[:240]
+    return (text or "").strip().splitlines()[-1][:240] if (text or "").strip() else ""
+
+
+def guard(ctx, stage, fn, default=None):
+    """run one stage; an exception is recorded (stage + first line) and the check continues with whatever does not need its result"""
+    try:
+        if os.environ.get("C05_SABOTAGE") == stage:                     # robustness experiment hook: C05_SABOTAGE='<stage name>'
+            raise RuntimeError("sabotage experiment: stage made to fail on purpose")
+        return fn()
+    except Exception as ex:                                             # noqa: BLE001 - the whole point
+        import traceback
+        tb = traceback.format_exc().strip().splitlines()
+        ctx.broken.append("stage '%s' raised %s: %s (%s)" % (stage, type(ex).__name__, str(ex).splitlines()[0][:200] if str(ex) else "", tb[-2].strip()[:160] if len(tb) > 1 else ""))
+        ctx.log("stage '%s' failed, continuing:\n%s" % (stage, "\n".join(tb[-6:])))
+        return default
+
+
 def run(ctx):
-    regen(ctx)
-    ctx.coq_check(PROP_FILES)
-    model = ctx.extract(snippets=["conv_N.ml", "conv_Z.ml", "conv_nat.ml"])
-    exes = ctx.cxx_many([dict(sources=["harness.cpp"], out="harness", sanitize="asan"),
-                         dict(sources=["harness.cpp"], out="harness_nosimd", sanitize="asan", flags=["-DRKCOMMON_NO_SIMD", "-DC05_ONLY_CASES"])])
+    try:
+        _run(ctx)
+    except Exception as ex:                                             # noqa: BLE001 - evidence is written by ctx.finish() after run() returns
+        ctx.broken.append("check.py: exception outside every stage: %s: %s" % (type(ex).__name__, str(ex)[:300]))
+
+
+def _run(ctx):
+    import time
+    left = lambda cap=300: max(15, min(cap, (BUDGET_S if not ctx.thorough() else 3000) - (time.time() - ctx.t0)))
+    # ---- stage 1-3: translation, proofs, executable model.  None of the later stages needs them except the model comparison.
+    guard(ctx, "cxx2coq regeneration", lambda: regen(ctx))
+    guard(ctx, "coq build + obligations", lambda: ctx.coq_check(PROP_FILES))
+    model = guard(ctx, "extraction + OCaml model build", lambda: ctx.extract(snippets=["conv_N.ml", "conv_Z.ml", "conv_nat.ml"]))
+    # ---- stage 4: two harness builds from the tree (public interface only); either one alone is enough for the exact batch
+    nlog = len(ctx.log_lines)
+    exes = guard(ctx, "harness builds", lambda: ctx.cxx_many(
+        [dict(sources=["harness.cpp"], out="harness", sanitize="asan"),
+         dict(sources=["harness.cpp"], out="harness_nosimd", sanitize="asan", flags=["-DRKCOMMON_NO_SIMD", "-DC05_ONLY_CASES"])]), [None, None])
     exe, exe_ns = exes
     if not exe or not exe_ns:
-        return
-    g = gen_cases(ctx)
-    cases = g.cases
+        errs = [first_error(l) for l in ctx.log_lines[nlog:] if "harness build failed" in l]
+        ctx.broken.append("harness build(s) failed against this tree (%s): %s" % (
+            ", ".join(n for n, e in (("default", exe), ("NO_SIMD cases-only", exe_ns)) if not e), "; ".join(errs)[:400]))
+    impls = [(l, e) for l, e in (("templates (default build, SSE rcp)", exe), ("templates (-DRKCOMMON_NO_SIMD)", exe_ns)) if e]
+    inexact, executed, viol, corr_broken, known = {}, {}, {}, [], {}
+    # ---- stage 5-7: the exact batch, judged by the definition oracle; compared with the model only if there is one
+    g = guard(ctx, "case generation", lambda: gen_cases(ctx))
+    cases = g.cases if g else []
     lines = [line_of(c) for c in cases]
-    # the harness and the definition oracle do not depend on the translation: when cxx2coq / Coq / the extraction no longer cover the
-    # tree (already recorded in ctx.broken) the complete exact batch, the exhaustive grids and the fuzz modes still run on the real code
     mlines = None
-    if model:
-        rc, mlines, merr = vlib.run_lines(ctx, model, [], lines)
-        if rc != 0 or len(mlines) != len(lines):
-            ctx.broken.append("model driver failed rc=%s lines=%d/%d %s" % (rc, len(mlines), len(lines), merr[-300:]))
-            mlines = None
+
+    def model_run():
+        rc, ml, merr = vlib.run_lines(ctx, model, [], lines, timeout=left())
+        if rc != 0 or len(ml) != len(lines):
+            ctx.broken.append("model driver failed rc=%s lines=%d/%d %s" % (rc, len(ml), len(lines), merr[-300:]))
+            return None
+        return ml
+    if model and lines:
+        mlines = guard(ctx, "model run", model_run)
     if mlines is None:
         ctx.log("no executable model for this tree: implementation judged by the definition oracle only")
         mlines = [None] * len(lines)
-    impls = [("templates (default build, SSE rcp)", exe), ("templates (-DRKCOMMON_NO_SIMD)", exe_ns)]
-    inexact = {}
-    executed = {}      # (op, instantiation code) -> cases observed on the default build
-    viol = {}          # clause -> (size, doc)
-    corr_broken = []
-    known = {}
-    for label, e in impls:
-        rc, ilines, ierr = vlib.run_lines(ctx, e, ["cases"], lines)
+
+    def exact_batch(label, e):
+        rc, ilines, ierr = vlib.run_lines(ctx, e, ["cases"], lines, timeout=left())
         if rc != 0 or len(ilines) != len(lines):
             n = len(ilines)
             cc = cases[n] if n < len(cases) else None
-            ctx.violation("harness %s crashed (rc=%d): sanitizer report / abort on the real code" % (label, rc),
+            ctx.violation("harness %s crashed (rc=%d): sanitizer report / abort / timeout on the real code" % (label, rc),
                           {"label": label, "stderr_tail": ierr[-3000:], "case": lines[n] if n < len(lines) else None,
                            "operation": OPN[cc[0]] if cc else None, "instantiation": INSTS[cc[1]][0] if cc else None,
                            "inputs": toks(cc[2]) if cc else None,
@@ -812,73 +855,88 @@ def run(ctx):
                                         "model_regenerated_from_this_tree": ml})
             elif il != ml:
                 corr_broken.append("correspondence C05 generated model vs %s on '%s': impl=%r model=%r (impl satisfies the oracle)" % (label, lines[i], il, ml))
+    for label, e in (impls if lines else []):
+        guard(ctx, "exact batch on " + label, lambda label=label, e=e: exact_batch(label, e))
     for key, (_, doc) in sorted(viol.items())[:8]:
         ctx.violation("%s violates its clause of the closed-box property" % key, doc)
     for b in corr_broken[:5]:
         ctx.broken.append(b)
-    # non-trivial cases: the input sits on a boundary (point on a face, boxes sharing a face coordinate, empty / inverted / degenerate operand)
     for c, l in zip(cases, lines):
         k = c[3]
         if any(w in k for w in ("face", "touching", "empty", "inverted", "degenerate", "point", "identical", "grazing", "axis_parallel", "inside", "exh2d", "some_axes", "xfm_structured", "center_huge", "center_int_limits", "inverted_axis", "separated_axis")):
             ctx.nontriv(l)
-    # in-harness exhaustive grids
-    rc, out, err = ctx.run_exe(exe, ["exh"] + (["thorough"] if ctx.thorough() else []), timeout=900)
-    done = [l for l in out.splitlines() if l.startswith("DONE")]
-    if rc != 0 or not done:
-        ctx.violation("harness exh crashed (rc=%d)" % rc, {"stderr_tail": err[-3000:], "stdout_tail": out[-1000:]}, found_input=False)
+
+    # ---- stage 8-10: in-harness oracles (need the full build)
+    def harness_mode(mode, args, covkey, what):
+        rc, out, err = ctx.run_exe(exe, [mode] + args, timeout=left())
+        done = [l for l in out.splitlines() if l.startswith("DONE")]
+        if rc != 0 or not done:
+            ctx.violation("harness %s (%s) crashed or timed out (rc=%d): sanitizer report / abort on the real code" % (mode, what, rc),
+                          {"stderr_tail": err[-3000:], "stdout_tail": out[-1000:], "replay": "build/C05/harness %s %s" % (mode, " ".join(args))}, found_input=False)
+        else:
+            ctx.cov[covkey] = done[0]
+            ctx.count(int(done[0].split("checks=")[1].split()[0]))
+        return out.splitlines()
+
+    def st_exh():
+        out = harness_mode("exh", ["thorough"] if ctx.thorough() else [], "exhaustive_grid", "exhaustive small grids")
+        seen = set()
+        for l in out:
+            if l.startswith("FAIL "):
+                cl = l.split()[1]
+                if cl in seen: continue
+                seen.add(cl)
+                ctx.violation("clause %s fails on the exhaustive small grid" % cl, {"clause": cl, "input": l[5:], "mode": "harness exh",
+                              "required": "see clause name; grid = all boxes/points with coordinates 0..K-1"})
+            elif l.startswith("KNOWN disjoint-inverted-empty-operand"):
+                known.setdefault(SIG_DISJ, (l, "", ""))
+
+    def st_fuzz():
+        nf = ctx.pick(20000, 200000)
+        if time.time() - ctx.t0 > BUDGET_S - 10: nf = 2000; ctx.log("wall-clock budget nearly used: float fuzz reduced to %d iterations" % nf)
+        out = harness_mode("fuzz", [str(ctx.seed), str(nf)], "float_fuzz", "random maps / rays vs the long double oracle")
+        seen = set()
+        for l in out:
+            if l.startswith("FAIL "):
+                cl = l.split()[1]
+                if cl in seen: continue
+                seen.add(cl)
+                ctx.violation("%s fails against the long double point-membership oracle" % cl,
+                              {"clause": cl, "input": l[5:], "replay": "build/C05/harness fuzz %d %d" % (ctx.seed, nf)})
+            elif l.startswith("KNOWN intersectRayBox-empty-box"):
+                known.setdefault(SIG_RAY, (l, "", ""))
+
+    def st_fuzzc():
+        nc = ctx.pick(100000, 1000000)
+        if time.time() - ctx.t0 > BUDGET_S - 10: nc = 10000; ctx.log("wall-clock budget nearly used: center fuzz reduced to %d boxes" % nc)
+        out = harness_mode("fuzzc", [str(ctx.seed), str(nc)], "center_fuzz", "center of random float / int boxes")
+        for l in out:
+            if l.startswith("KNOWN center-int-top"):
+                known.setdefault(SIG_CTOP, (l, "", ""))
+        for l in out:
+            if l.startswith("FAIL "):
+                ctx.violation("center() is not the midpoint within rounding", {"clause": "center_midpoint", "input": l[5:],
+                              "replay": "build/C05/harness fuzzc %d %d" % (ctx.seed, nc)})
+                break
+    if exe:
+        guard(ctx, "exhaustive grids", st_exh)
+        guard(ctx, "float fuzz", st_fuzz)
+        guard(ctx, "center fuzz", st_fuzzc)
     else:
-        ctx.cov["exhaustive_grid"] = done[0]
-        ctx.count(int(done[0].split("checks=")[1].split()[0]))
-    fails = [l for l in out.splitlines() if l.startswith("FAIL ")]
-    seen = set()
-    for l in fails:
-        cl = l.split()[1]
-        if cl in seen: continue
-        seen.add(cl)
-        ctx.violation("clause %s fails on the exhaustive small grid" % cl, {"clause": cl, "input": l[5:], "mode": "harness exh",
-                      "required": "see clause name; grid = all boxes/points with coordinates 0..K-1"})
-    for l in out.splitlines():
-        if l.startswith("KNOWN disjoint-inverted-empty-operand"): known.setdefault(SIG_DISJ, (l, "", ""))
-    # float rounding: random maps (condition <= 64) and rays vs the long double oracle
-    nf = ctx.pick(20000, 200000)
-    rc, out, err = ctx.run_exe(exe, ["fuzz", str(ctx.seed), str(nf)], timeout=900)
-    done = [l for l in out.splitlines() if l.startswith("DONE")]
-    if rc != 0 or not done:
-        ctx.violation("harness fuzz crashed (rc=%d)" % rc, {"stderr_tail": err[-3000:], "stdout_tail": out[-1000:]}, found_input=False)
-    else:
-        ctx.cov["float_fuzz"] = done[0]
-        ctx.count(int(done[0].split("checks=")[1].split()[0]))
-    seen = set()
-    for l in out.splitlines():
-        if l.startswith("FAIL "):
-            cl = l.split()[1]
-            if cl in seen: continue
-            seen.add(cl)
-            ctx.violation("%s fails against the long double point-membership oracle" % cl,
-                          {"clause": cl, "input": l[5:], "replay": "build/C05/harness fuzz %d %d" % (ctx.seed, nf)})
-        elif l.startswith("KNOWN intersectRayBox-empty-box"):
-            known.setdefault(SIG_RAY, (l, "", ""))
-    # center(): midpoint within the rounding of .5f*lower + .5f*upper (float: one rounding, exact when representable; int: via float)
-    nc = ctx.pick(100000, 1000000)
-    rc, out, err = ctx.run_exe(exe, ["fuzzc", str(ctx.seed), str(nc)], timeout=900)
-    done = [l for l in out.splitlines() if l.startswith("DONE")]
-    if rc != 0 or not done:
-        ctx.violation("harness fuzzc (center of random float / int boxes) crashed (rc=%d): sanitizer report / abort on the real code" % rc,
-                      {"stderr_tail": err[-3000:], "stdout_tail": out[-1000:], "replay": "build/C05/harness fuzzc %d %d" % (ctx.seed, nc)}, found_input=False)
-    else:
-        ctx.cov["center_fuzz"] = done[0]
-        ctx.count(int(done[0].split("checks=")[1].split()[0]))
-    for l in out.splitlines():
-        if l.startswith("KNOWN center-int-top"):
-            known.setdefault(SIG_CTOP, (l, "", ""))
-    for l in out.splitlines():
-        if l.startswith("FAIL "):
-            ctx.violation("center() is not the midpoint within rounding", {"clause": "center_midpoint", "input": l[5:],
-                          "replay": "build/C05/harness fuzzc %d %d" % (ctx.seed, nc)})
-            break
-    check_inventory(ctx, executed)
+        ctx.broken.append("exhaustive grids / float fuzz / center fuzz not run: the full harness build is missing")
+    # ---- stage 11: inventory (needs clang only)
+    guard(ctx, "inventory", lambda: check_inventory(ctx, executed, have_cases=bool(impls and lines)))
     for sig, (l, obs, req) in known.items():
         ctx.violation("known deviation reproduced: " + sig, {"signature": sig, "input": l, "observed": obs, "required": req}, signature=sig)
+    guard(ctx, "evidence bookkeeping", lambda: bookkeeping(ctx, g, cases, lines, mlines, inexact))
+    if ctx.thorough():
+        guard(ctx, "coqchk", lambda: ctx.coq_thorough_chk(["C05." + f[:-2] for f in PROP_FILES]))
+
+
+def bookkeeping(ctx, g, cases, lines, mlines, inexact):
+    if g is None:
+        ctx.rule = "(case generation failed)"
+        return
     ctx.cov["op_histogram"] = g.hist
     ctx.cov["case_kinds"] = dict(sorted(g.kinds.items(), key=lambda kv: -kv[1])[:60])
     ctx.cov["inexact_not_compared_exactly"] = inexact
@@ -887,7 +945,7 @@ def run(ctx):
                 "overlapping in some axes only, separated, identical} x points built from the box's own coordinates (+-1 / +-2^-18), every component drawn "
                 "independently; 9 instantiations; all 2D int boxes over {0..3} x 16 points; integer affine maps; power-of-two rays (axis-parallel, inside, grazing). "
                 "non-trivial = the case sits on a boundary (point on a face, shared face coordinate, empty/inverted/degenerate operand, grazing/axis-parallel ray)")
-    for c, l, ml in list(zip(cases, lines, mlines))[:3] + [(cases[-1], lines[-1], mlines[-1])]:
+    for c, l, ml in (list(zip(cases, lines, mlines))[:3] + [(cases[-1], lines[-1], mlines[-1])] if cases else []):
         ctx.sample({"case": "%s %s %s" % (OPN[c[0]], INSTS[c[1]][0], toks(c[2])), "kind": c[3], "model_and_impl": ml})
     ctx.trusted += ["tools/cxx2coq (clang 14 JSON AST -> Gallina) is trusted as a translator and validated on every run: the generated definitions, read over exact "
                     "extended rationals (coq/C05/Model.v, extracted) agree with the compiled templates on every exact case",
@@ -906,5 +964,3 @@ def run(ctx):
                         "gcc's -fsanitize=undefined does not include float-cast-overflow)",
                         "theorems about emptiness/disjointness/extend-leastness-as-sets assume operands that are non-empty or the canonical empty box; "
                         "inverted boxes are covered by the *_refuted theorems and the two known findings"]
-    if ctx.thorough():
-        ctx.coq_thorough_chk(["C05." + f[:-2] for f in PROP_FILES])
